@@ -76,7 +76,7 @@ theorem eval_unfold (st : PlanSt) (n : Nat) :
   simp [evalAll_length]
 
 theorem evalNode_congr (st : PlanSt) (n : Nat) (ρ ρ' : Nat → Val)
-    (h : ∀ e ∈ st.edges, e.dst = n → ρ e.src = ρ' e.src) : evalNode st ρ n = evalNode st ρ' n := by
+    (h : ∀ e ∈ st.edges, e.dst = n → e.key ≠ .dep → ρ e.src = ρ' e.src) : evalNode st ρ n = evalNode st ρ' n := by
   unfold evalNode
   split
   · rfl
@@ -88,18 +88,18 @@ theorem evalNode_congr (st : PlanSt) (n : Nat) (ρ ρ' : Nat → Val)
       congr 1
       · apply List.map_congr_left
         intro a ha
-        obtain ⟨e, he, hd, hsrc⟩ := hs.1 a ha
-        rw [← hsrc]; exact h e he hd
+        obtain ⟨e, he, hd, hsrc, hk⟩ := hs.1 a ha
+        rw [← hsrc]; exact h e he hd hk
       · apply List.map_congr_left
         intro q hq
-        obtain ⟨e, he, hd, hsrc⟩ := hs.2 q hq
-        rw [← hsrc, h e he hd]
+        obtain ⟨e, he, hd, hsrc, hk⟩ := hs.2 q hq
+        rw [← hsrc, h e he hd hk]
 
 /-- On a well-formed plan direct evaluation satisfies its defining equation with itself as environment. -/
 theorem eval_fix {st : PlanSt} (hwf : WF st) (n : Nat) : eval st n = evalNode st (eval st) n := by
   rw [eval_unfold]
   apply evalNode_congr
-  intro e he hd
+  intro e he hd _
   have := (hwf e he).1
   exact evalAll_getD st e.src n (by omega)
 
